@@ -5,7 +5,9 @@ import ProcSim.Spec.Sim
 1. `AMap` / `Util` / `Queues` algebra.
 2. Exact characterisations of every step of a cycle in terms of `Util.get`.
 3. The core invariant `CoreInv` (and its weaker part `BaseInv`), proved for `initState` and preserved by `runCycle`.
-4. Lifting principles from `runCycle` to diagrams of `simulate` (`simulate_induction`, `Diagram_adjacent`).
+4. Lifting principles from `runCycle` to diagrams of `simulate` (`simulate_induction`, `simulate_adjacent`).
+5. Memory-port accounting (`memNew`, `fillCycle_memNew_le_one`, `Diagram_memNew_le_one`) used by C05.
+6. Further per-unit preservation facts (`moveFlights_get_of_not_involved`, `issueLoop_get_prefix`, …).
 
 Core Lean only (no Mathlib import).
 -/
@@ -1989,5 +1991,97 @@ theorem Diagram_memNew_le_one {p : Proc N} (hn : (p.allUnits.map (·.name)).Nodu
   simulate_adjacent (BaseInv p prog) (BaseInv.init p prog) (fun _ _ hs hr => hs.step hn hr)
     (fun _ hs => hs.util_eq) (fun old new => memNew prog p.allUnits old new ≤ 1)
     (fun _ _ _ hr => runCycle_memNew_le_one hn hr) tbl stalled h
+
+open Spec
+
+/-! ## 6. Further per-unit preservation facts -/
+
+section extra
+omit [LT N] [DecidableRel (α := N) (· < ·)]
+
+/-- a full unit takes nothing -/
+theorem fillTaken_of_full (prog : List (Instr N)) (d : UnitM N) (cs : List (N × Nat)) (len : Nat) (mem : Bool)
+    (h : len = d.width) : fillTaken prog d cs len mem = [] := by
+  cases cs with
+  | nil => rfl
+  | cons c cs => unfold fillTaken; rw [if_pos h]
+
+/-- filling `d` leaves every unit alone that is neither `d` nor one of its predecessors -/
+theorem fillUnit_get_of_not_involved (prog : List (Instr N)) (d : FuncU N) (u : Util N) (mem : Bool) {n : N}
+    (h1 : d.model.name ≠ n) (h2 : n ∉ d.preds) : (fillUnit prog d u mem).1.get n = u.get n := by
+  rw [fillUnit_get_of_ne prog d u mem h1]
+  apply List.filter_eq_self.2
+  intro x _
+  simp only [Bool.not_eq_true', List.any_eq_false, Bool.and_eq_true, beq_iff_eq, not_and]
+  intro c hc e
+  exact absurd (e ▸ (mem_unitTaken hc).1) h2
+
+/-- the moves leave every unit alone that is neither at the output boundary, nor a destination, nor a predecessor -/
+theorem moveFlights_get_of_not_involved (p : Proc N) (prog : List (Instr N)) (u : Util N) {n : N}
+    (h0 : n ∉ p.outBoundary) (h1 : ∀ d ∈ p.dests, d.model.name ≠ n ∧ n ∉ d.preds) :
+    (moveFlights p prog u).1.get n = u.get n := by
+  refine moveFlights_induction p prog (fun u' _ => u'.get n = u.get n) u ?_ ?_
+  · rw [flushOutputs_get, if_neg h0]
+  · intro d hd u' mem hu'
+    rw [fillUnit_get_of_not_involved prog d u' mem (h1 d hd).1 (h1 d hd).2, hu']
+
+/-- the issue loop touches input ports only -/
+theorem issueLoop_get_of_not_port (ports : List (UnitM N)) (l : List (Instr N)) (u : Util N) (mem : Bool) (e : Nat)
+    {n : N} (h : n ∉ ports.map (·.name)) : (issueLoop ports l u mem e).1.get n = u.get n := by
+  induction l generalizing u mem e with
+  | nil => rfl
+  | cons ins rest ih =>
+    unfold issueLoop
+    cases ht : tryPorts ins.cap e ports u mem with
+    | none => rfl
+    | some r =>
+      obtain ⟨pre, port, post, hp, _, _, rfl⟩ := tryPorts_eq_some ht
+      simp only
+      rw [ih, Util.get_set_ne]
+      intro e1
+      exact h (List.mem_map.2 ⟨port, by rw [hp]; simp, e1⟩)
+
+/-- the issue loop only appends, to each unit, unstalled instructions with the indices it issued -/
+theorem issueLoop_get_prefix (ports : List (UnitM N)) (l : List (Instr N)) (u : Util N) (mem : Bool) (e : Nat)
+    (n : N) :
+    ∃ l', (issueLoop ports l u mem e).1.get n = u.get n ++ l' ∧
+      ∀ x ∈ l', x.st = .U ∧ e ≤ x.idx ∧ x.idx < (issueLoop ports l u mem e).2 := by
+  induction l generalizing u mem e with
+  | nil => exact ⟨[], by simp [issueLoop], by simp⟩
+  | cons ins rest ih =>
+    unfold issueLoop
+    cases ht : tryPorts ins.cap e ports u mem with
+    | none => exact ⟨[], by simp, by simp⟩
+    | some r =>
+      obtain ⟨pre, port, post, hp, _, _, rfl⟩ := tryPorts_eq_some ht
+      simp only
+      obtain ⟨l'', h1, h2⟩ := ih (u.set port.name (u.get port.name ++ [⟨e, .U⟩])) (mem || decide (ins.cap ∈ port.acl)) (e + 1)
+      have hge := issueLoop_entered_ge ports rest (u.set port.name (u.get port.name ++ [⟨e, .U⟩]))
+        (mem || decide (ins.cap ∈ port.acl)) (e + 1)
+      by_cases hpn : port.name = n
+      · subst hpn
+        refine ⟨⟨e, .U⟩ :: l'', ?_, ?_⟩
+        · rw [h1, Util.get_set_eq]; simp
+        · intro x hx
+          rcases List.mem_cons.1 hx with e1 | e1
+          · subst e1; exact ⟨rfl, Nat.le_refl _, by simp only; omega⟩
+          · have := h2 x e1; exact ⟨this.1, by omega, this.2.2⟩
+      · refine ⟨l'', ?_, ?_⟩
+        · rw [h1, Util.get_set_ne _ _ hpn]
+        · intro x hx
+          have := h2 x hx; exact ⟨this.1, by omega, this.2.2⟩
+
+end extra
+
+omit [LT N] [DecidableRel (α := N) (· < ·)] in
+/-- the concatenation of all hosted indices of the current record has no duplicate -/
+theorem CoreInv.hosted_nodup {p : Proc N} {prog : List (Instr N)} {s : SimState N} (h : CoreInv p prog s)
+    (hn : (p.allUnits.map (·.name)).Nodup) : (hostedIdx p s.util).Nodup := h.nd.hosted_nodup hn
+
+omit [LT N] [DecidableRel (α := N) (· < ·)] in
+/-- … and of every recorded cycle -/
+theorem CoreInv.hosted_nodup_rows {p : Proc N} {prog : List (Instr N)} {s : SimState N} (h : CoreInv p prog s)
+    (hn : (p.allUnits.map (·.name)).Nodup) : ∀ r ∈ s.table, (hostedIdx p r).Nodup :=
+  fun r hr => (h.nds r hr).hosted_nodup hn
 
 end ProcSim
